@@ -24,7 +24,7 @@ func TestC15(t *testing.T) {
 	mon.Main(t, mon.Check{
 		ID:          "C15",
 		Level:       "exploration",
-		Rule:        "three real connection types driven as net.Conn: (G) NoiseGrpcConn after real Client/ServerHandshake over an in-memory ProxyConn; (T) NoiseConn: client through mailbox.Dial with an in-memory dialer, server side wrapped as Listener.doHandshake does (hook); (L) the same pair through the real mailbox.Listener and mailbox.Dial over loopback TCP; (K) the plain mailbox connKit: real ClientConn and ServerConn (GBN inside) over the in-memory relay, no noise. For each, PRNG sequences of writes (sizes from {0,1,2,32767,32768,32769,65534,65535} and random, beyond 65535 up to 300000 on the TCP variant) and PRNG sequences of read-buffer sizes from {1,2,3,17,4096,32767,32768,32769,65535,100000} (+0..2). Oracles per Read: 0 <= n <= len(buf), bytes beyond n untouched, the bytes returned are the next bytes of the written stream; at the end the concatenation of reads equals the concatenation of writes; per Write: n == len(b) with a nil error, or an error; a write larger than one record on the gRPC variant returns ErrMaxMessageLengthExceeded and nothing of it reaches the reader, on the TCP variant it is chunked transparently. A twelfth of the cases interrupt a large write on the TCP variant with transport write timeouts and resume it with Flush/Write. A twelfth of the cases inject a transport write timeout into one record of the gRPC variant (header or body, nothing or half of it accepted), the caller retries once, and the reader must see exactly the bytes the Write calls reported as written. On the G and T variants one case in twelve writes 1050-1349 records of 1-60 bytes in one direction (two key rotations). In the TCP write-fault slice half of the senders offer the rest again before they flush (that Write must be refused; whatever it reports as written is taken at its word). A third of the Listener transfers start with a deadline prelude on the real sockets: SetDeadline then the two single setters with the zero time (and the other way round), or a read deadline that expires while nothing is in flight (must give a timeout error with n=0); after the old deadline has passed the transfer must be unaffected. Non-trivial = a transfer that used at least one read buffer smaller than a record and one larger; distinct = (variant, sizes hash).",
+		Rule:        "three real connection types driven as net.Conn: (G) NoiseGrpcConn after real Client/ServerHandshake over an in-memory ProxyConn; (T) NoiseConn: client through mailbox.Dial with an in-memory dialer, server side wrapped as Listener.doHandshake does (hook); (L) the same pair through the real mailbox.Listener and mailbox.Dial over loopback TCP; (K) the plain mailbox connKit: real ClientConn and ServerConn (GBN inside) over the in-memory relay, no noise. For each, PRNG sequences of writes (sizes from {0,1,2,32767,32768,32769,65534,65535} and random, beyond 65535 up to 300000 on the TCP variant) and PRNG sequences of read-buffer sizes from {1,2,3,17,4096,32767,32768,32769,65535,100000} (+0..2). Oracles per Read: 0 <= n <= len(buf), bytes beyond n untouched, the bytes returned are the next bytes of the written stream; at the end the concatenation of reads equals the concatenation of writes; per Write: n == len(b) with a nil error, or an error; a write larger than one record on the gRPC variant returns ErrMaxMessageLengthExceeded and nothing of it reaches the reader, on the TCP variant it is chunked transparently. A twelfth of the cases interrupt a large write on the TCP variant with transport write timeouts and resume it with Flush/Write. A twelfth of the cases inject a transport write timeout into one record of the gRPC variant (header or body, nothing or half of it accepted), the caller retries once, and the reader must see exactly the bytes the Write calls reported as written. On the G and T variants one case in twelve writes 1050-1349 records of 1-60 bytes in one direction (two key rotations). In the TCP write-fault slice half of the senders offer the rest again before they flush (that Write must be refused; whatever it reports as written is taken at its word). A third of the Listener transfers start with a deadline prelude on the real sockets: SetDeadline then the two single setters with the zero time (and the other way round), or a read deadline that expires while nothing is in flight (must give a timeout error with n=0); after the old deadline has passed the transfer must be unaffected. (W) one case in twenty-four is the plain mailbox connection with the client on the real websocket transport (a local TLS websocket endpoint bridged to the relay model, the server on the gRPC-style client): writes up to 65535 bytes in both directions on the first connection and, after both ends closed and refreshed their connection objects, on the refreshed one; transport errors are repeated with the same inputs (three in a row count), wrong bytes count at once. Non-trivial = a transfer that used at least one read buffer smaller than a record and one larger; distinct = (variant, sizes hash).",
 		Assumptions: []string{"a zero-length write produces an empty record; what Read returns for it (0 bytes) is not judged beyond the three clauses of the statement"},
 		NCases: func(tier string) int {
 			if tier == "thorough" {
